@@ -55,6 +55,20 @@ func (w *World) applyUntrustedRaw(p []string) (bool, bool) {
 			hm.AddBlockHeader(&hd)
 			hd2 := core.MakeHeader(*hd.BlockHash(), 79, 779, bitcoin.Hash32{3})
 			hm.AddBlockHeader(&hd2)
+		case "orphan": // linked headers of the branch the trusted peer abandoned in its last reorganisation, ending at the old tip
+			if len(w.Abandoned) < 4 {
+				return true, false
+			}
+			for i := len(w.Abandoned) - 4; i < len(w.Abandoned); i++ {
+				if i < len(w.Best) && w.Best[i] == w.Abandoned[i] {
+					continue // still common to both branches
+				}
+				hd := w.Tree.blocks[w.Abandoned[i]].msg.Header
+				hm.AddBlockHeader(&hd)
+			}
+			if len(hm.Headers) == 0 {
+				return true, false
+			}
 		case "empty":
 		}
 		w.send(pc, hm)
@@ -352,8 +366,14 @@ func c12Scenarios() []histParams {
 	// second scenario: one level deeper over the events around an outstanding / delivered-but-unprocessed block
 	// request and a verified untrusted peer's transactions
 	focus := []string{"ext:1", "ans", "tick:250", "tick:2300", "restart", "uh:good", "uinv:R3", "utx:R3", "uxtx:R3", "inv:T:R3", "ublock:fake", "uxblock:fake"}
+	// third scenario: the trusted peer reorganises across the 1000-header file boundary; an untrusted peer
+	// that is still on the abandoned branch must not pass the same-chain proof
+	deep := txCfg(1)
+	deep.InitialChain, deep.StartHeight = 1002, 995
+	fork := []string{"reorg+:5:6", "uh:orphan", "uh:good", "utx:R3", "tick:2300"}
 	return []histParams{{Prop: "C12", Cfg: cfg, Boot: "synced", Events: ev, Tx: true},
-		{Prop: "C12", Cfg: cfg, Boot: "synced", Events: focus, Tx: true, ExtraDepth: 1}}
+		{Prop: "C12", Cfg: cfg, Boot: "synced", Events: focus, Tx: true, ExtraDepth: 1},
+		{Prop: "C12", Cfg: deep, Boot: "synced", Events: fork, Tx: true}}
 }
 
 func init() {
